@@ -78,6 +78,9 @@ def _dest(d):
 def run_case(case):
     from dali.gear import sequences as gs
     from dali.gear import colour
+    if case["seq"] == "enums":
+        return {"seq": "enums", "query": [[m.name, int(m.value)] for m in colour.QueryColourValueDTR],
+                "limit": [[m.name, int(m.value)] for m in colour.StoreColourTemperatureTcLimitDTR2], "ev": [], "case": case}
     u = case["unit"]
     sim = Gear209Sim(u)
 
@@ -155,7 +158,7 @@ def run(tier, seed, replay=None):
         if replay is None:
             r = core.spec_check("Gear209Model", "Gear209Model.cfg", sc)
             out.add_spec_run(r, "Gear209Model (all 65536 values)")
-            cs = cases(tier, seed)
+            cs = cases(tier, seed) + [{"seq": "enums"}]
         else:
             cs = [replay["case"]["case"]]
         recs = core.pmap(run_case, cs, chunksize=256)
@@ -176,7 +179,7 @@ def run(tier, seed, replay=None):
                     "distinct cases with >= 2 commands; values: %s" % ("all 65536" if tier == "thorough" else "every 17th + boundaries"))
         byid = {r_["id"]: r_ for r_ in recs}
         s0 = recs[len(recs) // 2]
-        out.samples = [{k: s0[k] for k in ("seq", "value", "selector", "ev", "out")}]
+        out.samples = [{k: s0.get(k) for k in ("seq", "value", "selector", "ev", "out")}]
         out.assumptions = ["every QUERY COLOUR VALUE selector is modelled as a 16-bit variable (MSB answered, LSB left in DTR0)",
                            "ACTIVATE copies the temporary colour temperature (no clamping to limits in the model)"]
         env = [rj for rj in rejects if str(rj[2]).startswith("env-")]
